@@ -383,7 +383,128 @@ def work_derived(idx):
     return {"name": name, "status": "ok", "states": len(seen), "transitions": transitions}
 
 
+EXEC_SRC = """from cohdl import std, Entity, Port, Bit, BitVector, Unsigned, Signal
+import cohdl
+
+class T(Entity):
+    clk = Port.input(Bit)
+    rst = Port.input(Bit)
+    start = Port.input(Bit)
+    a = Port.input(Unsigned[2])
+    res = Port.output(Unsigned[2], default=3)
+    busy = Port.output(Bit, default=False)
+    def architecture(self):
+        ctx = std.SequentialContext(std.Clock(self.clk), std.Reset(self.rst, is_async={a}, active_low={l}))
+        arg = Signal[Unsigned[2]](0, name="exec_arg")
+        result = Signal[Unsigned[2]](1, name="exec_result")
+        async def work(x):
+            await std.tick()
+            await std.tick()
+            return x + 1
+        executor = std.Executor.{maker}(ctx, work, result, arg)
+        @ctx{deco}
+        async def main():
+            await self.start
+            self.busy <<= True
+            self.res <<= await executor.exec(self.a)
+            self.busy <<= False
+"""
+
+
+def work_reset_equiv(task):
+    """generic differential oracle for "after reset is released the context behaves exactly as after power-up": for every
+    state s reachable from power-up, reset is applied in s and the pair (s after reset, power-up state) is explored under all
+    inputs; the outputs of the two copies must agree in every reachable pair"""
+    name, src, (a, l), inputs, outs = task
+    res, _ = compile_source(src)
+    if not res.ok:
+        return {"name": name, "status": "rejected", "error": res.error}
+    try:
+        d = compile_design(res.vhdl)
+    except VhdlSyntaxError as e:
+        return {"name": name, "status": "violation", "what": f"emitted VHDL does not parse: {e}", "src": src}
+    if d.findings:
+        return {"name": name, "status": "violation", "what": f"emitted VHDL is not legal: {d.findings[0]!r}", "src": src}
+    inact, act = (1, 0) if l else (0, 1)
+    init = dict(clk=0, rst=inact)
+    init.update(inputs[0])
+    sa, sb = d.sim(init=init), d.sim(init=init)
+    power = sa.snapshot()
+    # 1. reachable states from power-up
+    seen = {power: []}
+    frontier = [power]
+    while frontier:
+        nxt = []
+        for snap in frontier:
+            for i, inp in enumerate(inputs):
+                sa.restore(snap)
+                sa.set_many(inp)
+                sa.clock()
+                s2 = sa.snapshot()
+                if s2 not in seen:
+                    seen[s2] = seen[snap] + [i]
+                    nxt.append(s2)
+        frontier = nxt
+    # 2. reset in every reachable state, then product exploration against the power-up state
+    pairs = set()
+    transitions = 0
+    for snap, hist in seen.items():
+        sa.restore(snap)
+        sa.set_many({"rst": act})
+        sa.settle()
+        if not a:
+            sa.clock()
+        sa.set_many({"rst": inact})
+        sa.settle()
+        start = (sa.snapshot(), power)
+        if start in pairs:
+            continue
+        pairs.add(start)
+        frontier = [(start, [])]
+        while frontier:
+            (pa, pb), suffix = frontier.pop()
+            for i, inp in enumerate(inputs):
+                sa.restore(pa)
+                sb.restore(pb)
+                for s_ in (sa, sb):
+                    s_.set_many(inp)
+                    s_.clock()
+                transitions += 1
+                ga, gb = {k: sa.get(k) for k in outs}, {k: sb.get(k) for k in outs}
+                if ga != gb:
+                    return {"name": name, "status": "violation", "src": src, "states": len(pairs), "transitions": transitions,
+                            "what": f"inputs {hist} then reset then {suffix + [i]}: outputs {ga}, from power-up the same inputs give {gb}"}
+                nx = (sa.snapshot(), sb.snapshot())
+                if nx not in pairs:
+                    pairs.add(nx)
+                    frontier.append((nx, suffix + [i]))
+    return {"name": name, "status": "ok", "states": len(pairs) + len(seen), "transitions": transitions}
+
+
+def reset_equiv_tasks():
+    inputs = [dict(start=s_, a=v) for s_ in (0, 1) for v in (1, 2)]
+    out = []
+    for maker in ("make_parallel",):
+        for fl in [(a, l) for a in (False, True) for l in (False, True)]:
+            out.append((f"derived/executor/{maker}/{'async' if fl[0] else 'sync'}-{'low' if fl[1] else 'high'}",
+                        EXEC_SRC.format(a=fl[0], l=fl[1], maker=maker, deco="" if maker == "make_parallel" else "(executors=[executor])"),
+                        fl, inputs, ("res", "busy")))
+    return out
+
+
 def derived_family(run: Run):
+    tasks = reset_equiv_tasks()
+    run.count("reset_equivalence_designs", len(tasks))
+    for kind, r in pmap(work_reset_equiv, tasks):
+        if kind != "ok":
+            run.tool_error(f"reset-equivalence worker failed: {r[-500:]}")
+            continue
+        run.count("derived_" + r["status"])
+        if r["status"] == "ok":
+            run.count("states", r["states"])
+            run.count("transitions", r["transitions"])
+        elif r["status"] == "violation":
+            run.violation(r["name"], f"{r['name']}: {r['what'][:300]}", {"kind": "derived-equiv", "name": r["name"], "cohdl_source": r.get("src")})
     n = len(derived_designs())
     run.count("derived_designs", n)
     for kind, r in pmap(work_derived, list(range(n))):
@@ -459,6 +580,11 @@ def flavour_name(fi):
 
 
 def replay(run: Run, data):
+    if data.get("kind") == "derived-equiv":
+        t = [t_ for t_ in reset_equiv_tasks() if t_[0] == data["name"]][0]
+        r = work_reset_equiv(t)
+        print(r.get("status"), r.get("what"))
+        return r["status"] != "violation"
     if data.get("kind") == "derived":
         idx = [k for k, d_ in enumerate(derived_designs()) if d_[0] == data["name"]][0]
         r = work_derived(idx)
